@@ -22,6 +22,10 @@ M = [
     ("C19", "reward-abs", "black_it/schedulers/rl/envs/mab.py", "reward = (self._curr_best_loss - best_loss) / self._curr_best_loss", "reward = (self._curr_best_loss - best_loss) / best_loss"),
     ("C19", "ref-always", "black_it/schedulers/rl/envs/mab.py", "            self._curr_best_loss = best_loss\n        return reward", "        self._curr_best_loss = best_loss\n        return reward"),
     ("C19", "alpha-sentinel", "black_it/schedulers/rl/agents/epsilon_greedy.py", "if self.alpha == -1 else", "if self.alpha < 0 else"),
+    ("C14", "verbose-guard", "black_it/calibrator.py", "                    if converged:\n", "                    if converged and self.verbose:\n"),
+    ("C14", "round-to-floor", "black_it/calibrator.py", "np.round(np.min(losses_samp[:n_sampled_params]), convergence_precision) == 0", "np.floor(np.min(losses_samp[:n_sampled_params]) * 10**convergence_precision) == 0"),
+    ("C14", "min-of-last", "black_it/calibrator.py", "np.round(np.min(losses_samp[:n_sampled_params]), convergence_precision) == 0", "np.round(np.min(losses_samp[-1:]), convergence_precision) == 0"),
+    ("C14", "off-by-one-count", "black_it/calibrator.py", "                        self.n_sampled_params,\n                        self.convergence_precision,", "                        self.n_sampled_params - 1,\n                        self.convergence_precision,"),
     ("C15", "no-tolerance", "black_it/search_space.py", "parameters_bounds[1][i] + 0.0000001,", "parameters_bounds[1][i],"),
 ]
 
